@@ -37,9 +37,17 @@ ID = "C18"
 LEVEL = "other"
 RULE = ("one case = (operation instance, aspect); operation instances: 4 plate generators, 6 smoothers, 2 hold-out splits, "
         "RandomScorer, DBAL kernel and GaussianDBALScorer with a triple budget below C(n,3), KPerSample policy, select_next_plate, "
-        "score_chunk with / without rng, sampling.sample on the two legacy Gibbs models, and the 4 CLI main()s in-process with --seed; "
+        "score_chunk with / without rng, sampling.sample on the two legacy Gibbs models and on the variational ComboGridFactorModel (pyro / torch; one epoch, "
+        "1-3 optimiser steps, n_grid 4-6), and the 6 CLI main()s that declare --seed in-process (prepare, calculate_scores, train_model, select_next_plate, "
+        "evaluate_model, analyze_model_evaluation: its published PDFs compared without /CreationDate); "
         "inputs are random small screens built from a per-case seed; each instance is executed twice with the same seed under "
-        "different global-generator states with all numpy.random module functions and default_rng trapped; the operations that are "
+        "different global-generator states (numpy, python random and - when torch is importable - torch's, all three reseeded, advanced and compared before / "
+        "after) with all numpy.random module functions, default_rng, seedless RandomState() / SeedSequence() / bit-generator constructions and torch's "
+        "module-level drawing / seeding functions trapped; operations with a recorded known leak (training, analyze_model_evaluation) get a further "
+        "observation, aspect repeatable-modulo-known-leak: two runs under IDENTICAL global states and with every unseeded construction given the same fixed "
+        "seed must agree (so a known finding cannot absorb a new cause); sampling.sample is also called twice on ONE model object under those conditions; "
+        "aspect hash-seed: one instance in HASH_KINDS[kind] of every kind is run in two fresh interpreters that differ in PYTHONHASHSEED, process id and "
+        "wall-clock second; the operations that are "
         "methods of a constructible object (generators, smoothers, scorers, the policy) are in addition asked twice on ONE object "
         "(key same_object).  Trivial: the operation "
         "refused its input (raised) in both runs; operations that legitimately make no draw (feature 'no-draws', e.g. MergeMin) are "
@@ -73,7 +81,10 @@ THEOREMS = {
 }
 ASSUMPTIONS = [
     "runtime part: numpy.random module-level functions and default_rng are looked up on the module at call time by batchie code (checked: no 'from numpy.random import <function>' in /repo/src/batchie), so patching the module attributes traps them",
-    "hidden randomness that bypasses both numpy.random.<fn>/default_rng() and the global MT19937 / python random state (e.g. os.urandom, a private RandomState()) is visible only through differing outputs of the two runs",
+    "hidden randomness that bypasses numpy.random.<fn> / default_rng() / the seedless constructors RandomState() SeedSequence() PCG64() PCG64DXSM() MT19937() Philox() SFC64() (looked up on the numpy.random module at call time) and the global numpy / python / torch generator states (e.g. os.urandom, numpy.random.mtrand.RandomState imported by another path, a torch.Generator seeded from the clock) is visible only through differing outputs of the two runs or of the two fresh interpreters",
+    "torch: only the CPU default generator (torch.get_rng_state()) is compared; Tensor methods that draw in place (x.normal_()) are not trapped by name - they show as a changed state; torch is observed only if some batchie module imported it (batchie.models.grid_combo does)",
+    "a declared --seed that a command never reads is a violation only if the command's output is not a function of its input files: evaluate_model is (theorem C18_model_is_source_cli_evaluate_model_seedless + runtime), analyze_model_evaluation is not (known finding)",
+    "two calls of sampling.sample on ONE model object are read as 'repeated with identical inputs' (sample() itself calls reset_model() first), as for generator / smoother / scorer / policy objects; the pipeline builds a fresh model per process, so the recorded finding does not affect it",
     "hold-out model: ceil(size * fraction) is computed over exact rationals; the harness uses dyadic fractions for which the float product is exact",
     "float scores cross the wire as order keys; DBAL scores themselves are not modelled here (C05), only the sub-sampling request",
     "source links: the hold-out theorems quantify over answers satisfying numpy's contract for rng.choice(array, k, replace=False) (k distinct elements of the array); the balanced one assumes the plates' row lists partition range(screen.size) (stated as two hypotheses; C14 proves it of Screen.plates); the random-scorer one assumes the dict's keys are distinct",
@@ -92,8 +103,15 @@ EXPLANATION = (
     "NOT proved about the implementation: that it has no hidden state.  That part is a RUNTIME check on generated inputs: every "
     "operation listed in the property is run twice with identically seeded generators under differently seeded global generators, "
     "outputs and request traces are compared, the global numpy / python generator states are compared before/after, and every call "
-    "of numpy.random.<module function> or argument-less default_rng() is trapped with its batchie call site.  Not covered: "
-    "models other than SparseDrugCombo / SparseDrugComboInteraction, the nextflow pipelines, multi-process runs.  "
+    "of numpy.random.<module function> or argument-less default_rng() is trapped with its batchie call site.  Since the gap review g5: torch's "
+    "process-global generator is part of the global state (reseeded, compared, its module-level drawing functions trapped); seedless RandomState() / "
+    "SeedSequence() / bit generators are trapped like default_rng(); the variational ComboGridFactorModel is trained (known finding: it never reads its "
+    "generator - theorems C18_global_only_frame / C18_given_generator_unread say what follows: the seed is no input of such a step); every "
+    "operation with a recorded leak is observed once more with the leak neutralised (theorem C18_global_only_repeatable_from_equal_global: then it "
+    "must be repeatable) so that the known signature cannot absorb a new cause, sampling.sample also twice on ONE model object (known finding: "
+    "reset_model() is incomplete); the two remaining commands that declare --seed are run (evaluate_model: deterministic without it; "
+    "analyze_model_evaluation: known finding, seaborn's bootstrap is unseeded).  Not covered: ComboGridFactorModel through train_model's command line "
+    "(its constructor arguments are not expressible as --model-param), the nextflow pipelines, multi-process runs, CUDA generators.  "
     "COVERED BY PROOF since the source-translation links (theorems C18_model_is_source_*): RandomScorer.score, "
     "create_random_holdout, create_plate_balanced_holdout_set_among_masked_plates, FixedSizeSmoother._smooth_plates, "
     "OptimalSizeSmoother._smooth_plates, PlatePermutationPlateGenerator._generate_plates and "
@@ -110,7 +128,7 @@ EXPLANATION = (
     "a function of the inputs and the answers of the given generator only' is a theorem about the translated source (it is "
     "a `prog`, so C18_explicit_stream / exec_is_replay / frame / two_runs_interleaved apply to it as they stand), not a "
     "runtime observation; trace conformance and the runtime traps still run for them and remain the only tie for every "
-    "other operation (SparseCover and Pairwise generators, the other four smoothers, DBAL scorer arithmetic, policy, "
+    "other operation (SparseCover - whose C13 link is re-read for C18 by C18_source_sparse_cover_explicit_stream - and Pairwise generators, the other four smoothers, DBAL scorer arithmetic, policy, "
     "select_next_plate, score_chunk, sampling, CLIs).  The links trust: the translator and Lib/PyRt.v + the rprog vocabulary at the end of "
     "Model/RandProg.v as the meaning of the Python constructs, and exactly these primitives - requests: rng.random() "
     "(RRandom, the double as its order key), rng.choice(a, n, replace=False) (RChoice a n false), rng.choice(n, size=k, "
@@ -167,10 +185,18 @@ _PARSER_PLAN = {
     "reveal_plate": ["fields", "dests_derived", "dests_distinct"],
     "extract_screen_metadata": ["fields", "dests_derived", "dests_distinct"],
     "calculate_distance_matrix": ["fields", "dests_derived", "dests_distinct", "coordinates", "params"],
-    "evaluate_model": ["fields", "dests_derived", "dests_distinct"],
-    "analyze_model_evaluation": ["fields", "dests_derived", "dests_distinct"],
+    "evaluate_model": ["fields", "dests_derived", "dests_distinct", "seed"],
+    "analyze_model_evaluation": ["fields", "dests_derived", "dests_distinct", "seed"],
 }
 THEOREMS.update(c18_args.parser_theorems("C18", _PARSER_PLAN))
+THEOREMS.update({
+    "C18_global_only_frame": "mirror image of C18_frame: a world (own, global) whose draws are ALL served by the global component (the variational model's training: set_rng stores the seeded generator, nothing reads it): own component returned unchanged, result independent of it and equal to the run on the global generator alone; G any type, e.g. (numpy state, torch state)",
+    "C18_given_generator_unread": "for such a step two runs with DIFFERENT given generators (seeds) and the same global state have the same output, requests, answers and final global state: the seed is not an input of it",
+    "C18_global_only_repeatable_from_equal_global": "what the observation repeatable-modulo-known-leak relies on: from equal global states even a globally served step is repeatable, so a difference remaining there has another cause than the recorded leak",
+    "C18_sparse_cover_explicit_stream": "the initial cover: RetroInit.sparse_cover (C13's model of SparseCoverPlateGenerator inside its public wrapper, answers as an explicit stream) consumes a prefix of the answers; output and unread rest are the same for every continuation of that prefix",
+    "C18_source_sparse_cover_explicit_stream": "the same about the TRANSLATED source (generate_and_unmask_initial_plate around _generate_and_unmask_initial_plate, Generated/SrcRetroGen.v, with the fuel C13 proves sufficient): its only answer-reading primitive is rng.choice(a, size=1) on its own generator argument, and what it returns depends on the consumed prefix only",
+    "C18_model_is_source_cli_evaluate_model_seedless": "evaluate_model.main (whole function, re-translated on this run) equals Cli.cli_evaluate_model, a function of the library record and Cli.ev_args = (screen, thetas, output): no seed component, no draw primitive in the vocabulary - the command is deterministic without reading its declared --seed (same statement as C10's link; re-stated so that C18 breaks when main() starts to read args.seed or to draw)",
+})
 THEOREMS['C18_parser_seed_default_draws'] = ('for any table with Cli.seed_declared: on the default --seed the generator construction of the wrappers '
                                              '(Cli.prng_of_seed, linked to get_prng_from_seed_argument) succeeds')
 EXPLANATION += c18_args.parser_explanation(sorted(_PARSER_PLAN))
@@ -190,6 +216,7 @@ EXPLANATION += c18_args.explanation(
 TRUSTED = [
     "unittest.mock patching of numpy.random attributes and the stack walk that attributes trapped calls to files under /repo/src/batchie",
     "RecordingGenerator (python subclass of numpy.random.Generator sharing the seeded bit generator) does not change the stream",
+    "the trapping subclasses of numpy.random.RandomState / SeedSequence / bit generators (transparent to isinstance / issubclass through a metaclass) and the wrappers of torch's module-level random functions behave as the originals; torch.set_num_threads(1) changes no result",
 ]
 
 SRC = os.path.join(os.environ.get("VERIF_REPO", "/repo"), "src", "batchie") + "/"   # the tree under test
@@ -297,7 +324,9 @@ def recording(gen, label):
 
 
 class Session:
-    def __init__(self):
+    def __init__(self, neutral=False):
+        self.neutral = neutral   # unseeded constructions get a fixed seed (observation "modulo the known leak")
+        self.n_unseeded = 0
         self.log = []   # trapped calls: dict(fn, frames) — frames: batchie call sites innermost first, or one '<outside>' caller
         self.gens = []  # recording generators, in creation order
 
@@ -308,7 +337,45 @@ class Session:
         return g
 
 
+# bit generators / RandomState / SeedSequence constructed WITHOUT seed / entropy draw OS entropy: hidden state just as an
+# argument-less default_rng().  They are classes (libraries test isinstance against them), so each is replaced by a subclass that is
+# transparent to isinstance / issubclass and logs a seedless construction with its batchie call site.
+UNSEEDED_CLASS_NAMES = [n for n in ("RandomState", "SeedSequence", "PCG64", "PCG64DXSM", "MT19937", "Philox", "SFC64") if isinstance(getattr(np.random, n, None), type)]
+ORIG_CLASSES = {n: getattr(np.random, n) for n in UNSEEDED_CLASS_NAMES}
+UNSEEDED_FNS = {"default_rng()"} | {n + "()" for n in UNSEEDED_CLASS_NAMES}
+# torch's process-global generator (when torch is importable): module-level functions that draw from / reseed it unless given generator=
+TORCH_FN_NAMES = ["manual_seed", "seed", "set_rng_state", "rand", "randn", "randint", "randperm", "normal", "bernoulli", "multinomial", "poisson",
+                  "rand_like", "randn_like", "randint_like", "binomial", "_standard_gamma", "_sample_dirichlet"]
+NEUTRAL_SEED = 777000111
+
+
+def _torch():
+    """torch if it has been imported (batchie.models.grid_combo imports it; _warm() imports every batchie module), else None"""
+    return sys.modules.get("torch")
+
+
+class _TransparentMeta(type):
+    def __instancecheck__(cls, obj):
+        return isinstance(obj, cls.__mro__[1])
+
+    def __subclasscheck__(cls, sub):
+        return issubclass(sub, cls.__mro__[1])
+
+
+def _class_trap(name, orig, sess):
+    def __init__(self, *a, **k):
+        first = a[0] if a else k.get("entropy" if name == "SeedSequence" else "seed")
+        if first is None:
+            sess.log.append(dict(fn=name + "()", frames=_batchie_frames()))
+            if sess.neutral:        # the known leak neutralised: the same seed in both runs, a different one per construction
+                sess.n_unseeded += 1
+                a, k = (NEUTRAL_SEED + sess.n_unseeded,) + tuple(a[1:]), {kk: v for kk, v in k.items() if kk not in ("seed", "entropy")}
+        orig.__init__(self, *a, **k)
+    return _TransparentMeta(name, (orig,), {"__init__": __init__, "__module__": orig.__module__, "__qualname__": name})
+
+
 def _traps(sess):
+    import contextlib
     repl = {}
     for n in GLOBAL_FN_NAMES:
         orig = getattr(np.random, n)
@@ -321,6 +388,10 @@ def _traps(sess):
     def drng(*a, **k):
         frames = _batchie_frames()
         seedless = (not a and not k) or (a and a[0] is None) or (not a and k.get("seed", 0) is None)
+        if seedless and sess.neutral:
+            sess.n_unseeded += 1
+            sess.log.append(dict(fn="default_rng()", frames=frames))
+            return ORIG_DEFAULT_RNG(NEUTRAL_SEED + sess.n_unseeded)
         g = ORIG_DEFAULT_RNG(*a, **k)
         if seedless:
             sess.log.append(dict(fn="default_rng()", frames=frames))
@@ -331,21 +402,45 @@ def _traps(sess):
             return r
         return g
     repl["default_rng"] = drng
-    return mock.patch.multiple(np.random, **repl)
+    for n, orig in ORIG_CLASSES.items():
+        repl[n] = _class_trap(n, orig, sess)
+    st = contextlib.ExitStack()
+    st.enter_context(mock.patch.multiple(np.random, **repl))
+    torch = _torch()
+    if torch is not None:
+        trepl = {}
+        for n in TORCH_FN_NAMES:
+            orig = getattr(torch, n, None)
+            if orig is None:
+                continue
+
+            def tw(*a, __orig=orig, __n=n, **k):
+                if k.get("generator") is None:
+                    sess.log.append(dict(fn="torch." + __n, frames=_batchie_frames()))
+                return __orig(*a, **k)
+            trepl[n] = tw
+        st.enter_context(mock.patch.multiple(torch, **trepl))
+    return st
 
 
 def _state_eq(a, b):
     return a[0] == b[0] and np.array_equal(a[1], b[1]) and tuple(a[2:]) == tuple(b[2:])
 
 
-def observe(thunk, gseed):
-    """reseed + advance the global generators, run thunk(session) under the traps, compare global state."""
+def observe(thunk, gseed, neutral=False):
+    """reseed + advance the global generators (numpy, python random, torch when imported), run thunk(session) under the traps,
+    compare the global states.  neutral=True: unseeded generator constructions are given a fixed seed (Session.neutral)."""
     ORIG_SEED(gseed)
     ORIG_RANDOM_SAMPLE(1 + gseed % 7)
     pyrandom.seed(gseed * 7919 + 1)
     pyrandom.random()
+    torch = _torch()
+    if torch is not None:
+        torch.manual_seed(gseed * 31 + 5)
+        torch.rand(1 + gseed % 5)
     st0, py0 = ORIG_GET_STATE(), pyrandom.getstate()
-    sess = Session()
+    t0 = torch.get_rng_state().clone() if torch is not None else None
+    sess = Session(neutral)
     lg = logging.getLogger("batchie")
     handlers = list(lg.handlers)
     with _traps(sess), mock.patch("batchie.log_config.configure_logging", lambda args: None):
@@ -355,9 +450,11 @@ def observe(thunk, gseed):
             out = ["raised", type(e).__name__, str(e)[:160]]
     lg.handlers[:] = handlers
     st1, py1 = ORIG_GET_STATE(), pyrandom.getstate()
+    torch = _torch()
+    torch_changed = bool(torch is not None and t0 is not None and not torch.equal(t0, torch.get_rng_state()))
     return dict(out=out, gens=sess.gens,
                 reqs=[[g.label, g.requests] for g in sess.gens], answers=[g.answers for g in sess.gens],
-                np_changed=not _state_eq(st0, st1), py_changed=(py0 != py1),
+                np_changed=not _state_eq(st0, st1), py_changed=(py0 != py1), torch_changed=torch_changed,
                 trapped=list(sess.log), trapped_outside=len([e for e in sess.log if _outside(e["frames"])]))
 
 
@@ -479,6 +576,30 @@ def _scorer(name, d):
     if name == "SizeScorer":
         return SizeScorer()
     return GaussianDBALScorer(max_chunk=d.get("max_chunk", 2), max_triples=d.get("max_triples", 3))
+
+
+def _quiet_tqdm_init(self, *a, __orig=None, **k):
+    """tqdm progress bars of the variational model write to stderr; disable=True changes nothing else"""
+    k["disable"] = True
+    return _TQDM_INIT(self, *a, **k)
+
+
+try:
+    import tqdm as _tqdm_mod
+    _TQDM_INIT = _tqdm_mod.tqdm.__init__
+except Exception:   # noqa: BLE001
+    _TQDM_INIT = None
+
+
+def _published_digest(fn):
+    """digest of a published file; PDFs without their /CreationDate (the one field matplotlib fills from the wall clock)"""
+    import re
+    b = open(fn, "rb").read()
+    if fn.endswith(".pdf"):
+        b = re.sub(rb"/CreationDate \([^)]*\)", b"", b)
+    elif fn.endswith(".json"):
+        return b.decode("utf8", "replace")[:400]
+    return hashlib.sha1(b).hexdigest()[:16]
 
 
 def _shared(d, mk):
@@ -609,23 +730,38 @@ def build(d):
             return [cv(h.plate_ids), cv(h.scores)]
         return f
     if k == "sample":
-        def f(S):
-            import batchie.sampling
-            from batchie.core import ThetaHolder
+        def mkmodel():
             from batchie.data import ExperimentSpace
             sc = mk_screen(d["screen"])
             sp = ExperimentSpace.from_screen(sc)
             if d["model"] == "SparseDrugCombo":
                 from batchie.models.sparse_combo import SparseDrugCombo
                 m = SparseDrugCombo(experiment_space=sp, n_embedding_dimensions=d["dim"])
+            elif d["model"] == "ComboGridFactorModel":
+                # the variational model (pyro / torch), smallest settings: one epoch, min_steps = max_steps = d["steps"] optimiser steps
+                from batchie.models.grid_combo import ComboGridFactorModel
+                drugs = np.unique(sc.treatment_names[sc.treatment_names != sc.control_treatment_name])
+                m = ComboGridFactorModel(experiment_space=sp, n_unique_samples=sp.n_unique_samples, unique_drug_names=drugs,
+                                         log_conc_range=(-1.0, 1.0), n_grid=d["n_grid"], n_embedding_dimensions=d["dim"],
+                                         n_sigma_embedding_dimensions=d["dim"], n_epochs=1, batch_size=50000,
+                                         min_steps=d["steps"], max_steps=d["steps"])
             else:
                 from batchie.models.sparse_combo_interaction import SparseDrugComboInteraction
                 m = SparseDrugComboInteraction(experiment_space=sp, n_embedding_dimensions=d["dim"])
             ob = sc.subset_observed()
             if ob is not None:
                 m.add_observations(ob)
-            res = batchie.sampling.sample(model=m, results=ThetaHolder(n_thetas=d["n_thetas"]), seed=seed, n_chains=d["n_chains"],
-                                          chain_index=d["chain_index"], n_burnin=d["n_burnin"], thin=d["thin"])
+            return m
+        o = _shared(d, mkmodel)
+
+        def f(S):
+            import batchie.sampling
+            from batchie.core import ThetaHolder
+            m = o()
+            kw = {} if d["model"] == "ComboGridFactorModel" else dict(n_chains=d["n_chains"], chain_index=d["chain_index"], n_burnin=d["n_burnin"],
+                                                                      thin=d["thin"])
+            with mock.patch("tqdm.tqdm.__init__", _quiet_tqdm_init):
+                res = batchie.sampling.sample(model=m, results=ThetaHolder(n_thetas=d["n_thetas"]), seed=seed, **kw)
             return [[[kk, cv(np.asarray(vv))] for kk, vv in sorted(res.get_theta(i).private_parameters_dict().items())
                      if not isinstance(vv, dict)] for i in range(res.n_thetas)]
         return f
@@ -703,6 +839,31 @@ def build(d):
             finally:
                 shutil.rmtree(t, ignore_errors=True)
         return f
+    if k in ("cli_evaluate_model", "cli_analyze_model_evaluation"):
+        def f(S):
+            from batchie.cli import analyze_model_evaluation as AM
+            from batchie.cli import evaluate_model as EM
+            t = _tmpdir()
+            try:
+                sc = mk_screen(d["screen"])
+                sc.save_h5(os.path.join(t, "in.h5"))
+                ths = []
+                for c in range(d["n_chains"]):
+                    ths.append(os.path.join(t, "th%d.h5" % c))
+                    mk_thetas(sc, d["n_thetas"], d["data_seed"] + c).save_h5(ths[-1])
+                ev = ["evaluate_model", "--screen", os.path.join(t, "in.h5"), "--thetas"] + ths + ["--output", os.path.join(t, "me.h5")]
+                if k == "cli_evaluate_model":
+                    run_cli(EM, ev + ["--seed", str(seed)])
+                    return h5_dump(os.path.join(t, "me.h5"))
+                run_cli(EM, ev)
+                run_cli(AM, ["analyze_model_evaluation", "--model-evaluation", os.path.join(t, "me.h5"), "--screen", os.path.join(t, "in.h5"),
+                             "--thetas"] + ths + ["--output-dir", os.path.join(t, "out"), "--seed", str(seed)])
+                return [[fn, _published_digest(os.path.join(t, "out", fn))] for fn in sorted(os.listdir(os.path.join(t, "out")))]
+            finally:
+                shutil.rmtree(t, ignore_errors=True)
+                import matplotlib.pyplot as plt
+                plt.close("all")
+        return f
     raise ValueError(k)
 
 
@@ -726,22 +887,32 @@ def _warm():
         from batchie import introspection
         from batchie.core import Scorer
         introspection.get_class(package_name="batchie", class_name="RandomScorer", base_class=Scorer)
+        if _torch() is not None:
+            # one intra-op thread: on a loaded machine torch's thread pool makes a 4-row softmax take 80 ms; a thread count is no input of any operation
+            _torch().set_num_threads(1)
         _WARM = True
 
 
 _WARM = False
 
 
+LEAK_ASPECT = "repeatable-modulo-known-leak"
+
+
 def executed(desc):
+    """the two observed runs of an operation instance.  Aspect LEAK_ASPECT: both runs under the SAME global-generator states and with
+    every unseeded generator construction given the same fixed seed - the known leaks (global numpy / torch draws, argument-less
+    default_rng()) are thereby served identically in both runs, so any remaining difference has another cause."""
     _warm()
-    key = json.dumps(core_of(desc), sort_keys=True)
+    neutral = desc.get("aspect") == LEAK_ASPECT
+    key = json.dumps([core_of(desc), neutral], sort_keys=True)
     if key not in _CACHE:
         if len(_CACHE) > 8:
             _CACHE.clear()
         thunk = build(core_of(desc))
         g1 = 1000 + (int(hashlib.sha1(key.encode()).hexdigest()[:6], 16) % 50000)
-        r1 = observe(thunk, g1)
-        r2 = observe(thunk, g1 * 3 + 17)
+        r1 = observe(thunk, g1, neutral)
+        r2 = observe(thunk, g1 if neutral else g1 * 3 + 17, neutral)
         _CACHE[key] = (r1, r2)
     return _CACHE[key]
 
@@ -752,6 +923,8 @@ def op_name(d):
         return "smoother:" + d["name"]
     if k in ("sample", "cli_train_model"):
         return k + ":" + d["model"]
+    if k == "cli_analyze_model_evaluation":
+        return k
     if k in ("score_chunk", "cli_calculate_scores"):
         return k + ":" + d["scorer"] + (":rng=None" if d.get("norng") else "")
     if k == "select_next_plate" and d.get("norng"):
@@ -760,21 +933,31 @@ def op_name(d):
 
 
 GIBBS_FILES = ("models/sparse_combo.py", "models/sparse_combo_interaction.py")
+GRID_FILES = ("models/grid_combo.py", "models/grid_helper.py")
+SIG_GRID = "vi-grid-model-uses-global-numpy-and-torch-generators"
+SIG_ANALYZE = "analyze-model-evaluation-cli-ignores-seed"
+SIG_REUSE = "training-on-a-reused-model-object-not-reset"
 
 
 def classify_trap(d, e):
     """stable signature of one trapped call"""
     site = e["frames"][0]
     f = site.split(":")[0]
-    if e["fn"] == "default_rng()":
-        if d["kind"] == "cli_calculate_scores" and site_ff(site) == "scoring/main.py:score_chunk":
-            return "calculate-scores-cli-ignores-seed"
-        if site_ff(site) == "fast_mvn.py:sample_mvn_from_precision" and len(e["frames"]) > 1 and e["frames"][1].split(":")[0] in GIBBS_FILES:
-            return "gibbs-sampler-mvn-unseeded-default-rng"
-        return "%s:unseeded-default_rng:%s" % (op_name(d), site_ff(site))
-    if f in GIBBS_FILES:
+    if e["fn"] in UNSEEDED_FNS:
+        if e["fn"] == "default_rng()":
+            if d["kind"] == "cli_calculate_scores" and site_ff(site) == "scoring/main.py:score_chunk":
+                return "calculate-scores-cli-ignores-seed"
+            if site_ff(site) == "fast_mvn.py:sample_mvn_from_precision" and len(e["frames"]) > 1 and e["frames"][1].split(":")[0] in GIBBS_FILES:
+                return "gibbs-sampler-mvn-unseeded-default-rng"
+            if d["kind"] == "cli_analyze_model_evaluation" and site_ff(site) in KNOWN_ANALYZE_SITES:
+                return SIG_ANALYZE
+            return "%s:unseeded-default_rng:%s" % (op_name(d), site_ff(site))
+        return "%s:unseeded-%s:%s" % (op_name(d), e["fn"], site_ff(site))
+    if f in GIBBS_FILES and not e["fn"].startswith("torch."):
         return "gibbs-sampler-uses-global-np-random"
-    return "%s:global-numpy.random.%s:%s" % (op_name(d), e["fn"], site_ff(site))
+    if f in GRID_FILES:
+        return SIG_GRID
+    return "%s:global-%s:%s" % (op_name(d), e["fn"] if e["fn"].startswith("torch.") else "numpy.random." + e["fn"], site_ff(site))
 
 
 def summarize_traps(es, n=4):
@@ -783,7 +966,7 @@ def summarize_traps(es, n=4):
         key = (e["fn"], e["frames"][0])
         by[key] = by.get(key, 0) + 1
     items = sorted(by.items(), key=lambda kv: (-kv[1], kv[0]))
-    return "; ".join("numpy.random.%s at %s x%d" % (fn if fn != "default_rng()" else "default_rng()", s, c) for (fn, s), c in items[:n]) \
+    return "; ".join("%s at %s x%d" % (fn if fn.startswith("torch.") else "numpy.random." + fn, s, c) for (fn, s), c in items[:n]) \
         + (" ... (%d sites)" % len(items) if len(items) > n else "")
 
 
@@ -798,6 +981,12 @@ KNOWN_GIBBS_GLOBAL_SITES = {
         "_V2_step", "_W_step", "_prec_V2_step", "_prec_W0_step", "_prec_W_step", "_prec_obs_step")
 }
 KNOWN_GIBBS_UNSEEDED_SITES = {"fast_mvn.py:sample_mvn_from_precision"}
+# the variational grid model: np.random.choice / torch.randperm in the batch iterator, pyro's sample statements of the model function
+# (torch.normal, torch._standard_gamma through torch.distributions) and of the guide / Predictive called from fit / sample
+KNOWN_GRID_GLOBAL_SITES = {"models/grid_helper.py:__iter__", "models/grid_helper.py:__next__", "models/grid_combo.py:model",
+                           "models/grid_combo.py:fit", "models/grid_combo.py:sample"}
+# analyze_model_evaluation: seaborn's regplot bootstraps its confidence band from default_rng(None) at these two call sites
+KNOWN_ANALYZE_SITES = {"plotting.py:predicted_vs_observed_scatterplot", "plotting.py:predicted_vs_observed_scatterplot_per_sample"}
 KNOWN_GIBBS_UNSEEDED_CALLERS = {"_W_step", "_V2_step", "_V1_step"}
 
 
@@ -805,6 +994,10 @@ def _refine(sig, traps_glob, traps_unseeded):
     """append the first offending site that the recorded known findings do not cover"""
     if sig == "gibbs-sampler-uses-global-np-random":
         new = sorted({site_ff(e["frames"][0]) for e in traps_glob} - KNOWN_GIBBS_GLOBAL_SITES)
+        if new:
+            return sig + ":new-site:" + new[0]
+    if sig == SIG_GRID:
+        new = sorted({site_ff(e["frames"][0]) for e in traps_glob} - KNOWN_GRID_GLOBAL_SITES)
         if new:
             return sig + ":new-site:" + new[0]
     if sig == "gibbs-sampler-mvn-unseeded-default-rng":
@@ -862,6 +1055,12 @@ def hash_outputs(core):
     return _POOL["got"][key]
 
 
+def _fresh_object_repeatable(desc):
+    """the same instance with a fresh object per run is repeatable under the neutralised leaks (so a difference on ONE object is the object's kept state)"""
+    f1, f2 = executed({k: v for k, v in desc.items() if k != "same_object"})
+    return f1["out"] == f2["out"]
+
+
 def judge(desc):
     """-> (pred, sig, features) for this aspect of the executed operation"""
     r1, r2 = executed(desc)
@@ -870,8 +1069,8 @@ def judge(desc):
     op = op_name(d)
     allowed = DOCUMENTED_FALLBACK.get(d["kind"]) if d.get("norng") else None
     traps = r1["trapped"] + r2["trapped"]
-    glob = [e for e in traps if e["fn"] != "default_rng()"]
-    unseeded = [e for e in traps if e["fn"] == "default_rng()" and site_ff(e["frames"][0]) != allowed]
+    glob = [e for e in traps if e["fn"] not in UNSEEDED_FNS]
+    unseeded = [e for e in traps if e["fn"] in UNSEEDED_FNS and not (e["fn"] == "default_rng()" and site_ff(e["frames"][0]) == allowed)]
     n_req = sum(len(g.requests) for g in r1["gens"])
     feats = [d["kind"], op, a] + (["draws"] if (n_req or traps) else ["no-draws"]) + (["same-object-asked-twice"] if d.get("same_object") else [])
     if isinstance(r1["out"], list) and r1["out"][:1] == ["raised"]:
@@ -897,6 +1096,14 @@ def judge(desc):
             elif "gibbs-sampler-mvn-unseeded-default-rng" in causes:
                 sig = "gibbs-sampler-mvn-unseeded-default-rng"
                 pred += "; " + summarize_traps(unseeded)
+            elif SIG_GRID in causes:
+                sig = SIG_GRID
+                pred += ("; the variational model draws from the global numpy and torch generators: %s; the generator passed to set_rng received %d "
+                         "requests%s" % (summarize_traps(glob), n_req, "; torch.get_rng_state() changed" if r1["torch_changed"] else ""))
+            elif SIG_ANALYZE in causes:
+                sig = SIG_ANALYZE
+                diff = [x[0] for x, y in zip(r1["out"], r2["out"]) if x != y] if isinstance(r1["out"], list) and isinstance(r2["out"], list) else []
+                pred += "; --seed is parsed and never used; published files that differ: %s; %s" % (diff, summarize_traps(unseeded))
             else:
                 sig = op + ":repeatable:nondeterministic-output" + ((":" + causes[0]) if causes else "")
         elif r1["reqs"] != r2["reqs"]:
@@ -905,20 +1112,41 @@ def judge(desc):
     elif a == "global-state":
         if glob:
             sig = classify_trap(d, glob[0])
-            pred = "%s calls module-level numpy.random functions (process-global generator): %s" % (op, summarize_traps(glob))
+            pred = "%s calls module-level numpy.random / torch functions (process-global generators): %s" % (op, summarize_traps(glob))
             if r1["np_changed"]:
                 pred += "; np.random.get_state() changed by the operation"
+            if r1["torch_changed"]:
+                pred += "; torch.get_rng_state() changed by the operation"
         elif r1["np_changed"] or r2["np_changed"]:
             pred, sig = "%s: np.random.get_state() changed by the operation (no module-level call trapped)" % op, op + ":global-state:numpy-state-perturbed"
         elif r1["py_changed"] or r2["py_changed"]:
             pred, sig = "%s: python random.getstate() changed by the operation" % op, op + ":global-state:python-random-perturbed"
+        elif r1["torch_changed"] or r2["torch_changed"]:
+            pred, sig = "%s: torch.get_rng_state() (torch's process-global generator) changed by the operation" % op, op + ":global-state:torch-state-perturbed"
+    elif a == LEAK_ASPECT:
+        # both runs had the same global-generator states and the same seeds for unseeded constructions (executed): what
+        # C18_replay_deterministic says must then be equal
+        what = "%s: two runs%s with identical inputs, seed %s, IDENTICAL global numpy / python / torch generator states and identically seeded " \
+               "replacements of every unseeded generator (the known leaks neutralised)" % (op, " on ONE object" if d.get("same_object") else "", d.get("seed"))
+        if r1["out"] != r2["out"]:
+            pred = what + " still give different outputs: there is a source of non-determinism besides the recorded ones"
+            sig = op + ":" + LEAK_ASPECT + ":nondeterministic-output"
+            if d.get("same_object") and d["kind"] == "sample" and d["model"] in ("SparseDrugCombo", "SparseDrugComboInteraction") \
+                    and _fresh_object_repeatable(desc):
+                sig = SIG_REUSE
+                pred = what + (" give different outputs, although the same instance with a FRESH model object per run is repeatable under these conditions: "
+                               "sampling.sample calls model.reset_model() first, but the object keeps state of the previous training (reset_model() does not "
+                               "restore every parameter array to its constructed value)")
+        elif r1["reqs"] != r2["reqs"]:
+            pred = what + " make different request sequences on the seeded generator"
+            sig = op + ":" + LEAK_ASPECT + ":request-trace-differs"
     elif a == "hash-seed":
         o = hash_outputs(d)
         feats.append("fresh-interpreters")
         if any(x.startswith("worker failed") for x in o):
             raise RuntimeError("C18 hash-seed worker failed: %r" % (o,))
         if o[0].split(":")[0] != o[1].split(":")[0]:
-            pred = ("%s: two fresh interpreters that differ only in PYTHONHASHSEED (%s / %s), same inputs and identically seeded generator "
+            pred = ("%s: two fresh interpreters that differ in PYTHONHASHSEED (%s / %s), process id and wall-clock second only, same inputs and identically seeded generator "
                     "(seed %s), give different outputs: %s  VERSUS  %s" % (op, HASH_SEEDS[0], HASH_SEEDS[1], d.get("seed"), o[0][41:300], o[1][41:300]))
             sig = op + ":hash-seed-dependent-output"
     elif a == "given-generator":
@@ -1101,7 +1329,8 @@ EXPECTED_OPS = [
     "smoother:FixedSize", "smoother:OptimalSize", "smoother:NPlatePerCellLine", "smoother:BatchieEnsemble", "random_holdout",
     "balanced_holdout", "random_scorer", "dbal_vectorized", "dbal_scorer", "policy_filter", "select_next_plate",
     "score_chunk:RandomScorer", "score_chunk:RandomScorer:rng=None", "score_chunk:GaussianDBALScorer", "sample:SparseDrugCombo",
-    "cli_prepare", "cli_calculate_scores:RandomScorer", "cli_train_model:SparseDrugCombo", "cli_select_next_plate"]
+    "cli_prepare", "cli_calculate_scores:RandomScorer", "cli_train_model:SparseDrugCombo", "cli_select_next_plate",
+    "sample:ComboGridFactorModel", "cli_evaluate_model", "cli_analyze_model_evaluation"]
 # operations that must have been seen making draw requests on a seeded generator at least once (otherwise the check is hollow)
 MUST_DRAW = ["sparse_cover", "pairwise", "plate_permutation", "sample_segregating", "smoother:FixedSize", "smoother:OptimalSize",
              "smoother:BatchieEnsemble", "random_holdout", "balanced_holdout", "random_scorer", "dbal_vectorized", "dbal_scorer",
@@ -1117,12 +1346,32 @@ def extra(tier):
         np.random.normal(0.0, 1.0)
         np.random.default_rng()
         pyrandom.random()
+        np.random.RandomState()
+        np.random.PCG64()
+        np.random.SeedSequence()
+        np.random.Generator(np.random.PCG64(5)).random()      # seeded: not logged
+        if _torch() is not None:
+            _torch().rand(2)
+            _torch().randperm(3, generator=_torch().Generator().manual_seed(1))      # own generator: not logged
         return 0
+    _warm()
+    n_exp = 5 + (1 if _torch() is not None else 0)
     r = observe(probe, 4242)
-    ok = r["trapped_outside"] == 2 and len(r["trapped"]) == 2 and r["np_changed"] and r["py_changed"]
-    out.append(("trap-selftest", ok, "outside=%d np_changed=%s py_changed=%s" % (r["trapped_outside"], r["np_changed"], r["py_changed"])))
+    ok = (r["trapped_outside"] == n_exp and len(r["trapped"]) == n_exp and r["np_changed"] and r["py_changed"]
+          and r["torch_changed"] == (_torch() is not None)
+          and isinstance(ORIG_CLASSES["RandomState"](3), np.random.RandomState))
+    out.append(("trap-selftest", ok, "outside=%d np_changed=%s py_changed=%s torch_changed=%s fns=%s" % (
+        r["trapped_outside"], r["np_changed"], r["py_changed"], r["torch_changed"], sorted(e["fn"] for e in r["trapped"]))))
     r = observe(lambda S: 0, 4243)
-    out.append(("trap-selftest-quiet", (not r["np_changed"]) and (not r["py_changed"]) and r["trapped_outside"] == 0, "idle operation leaves the states alone"))
+    out.append(("trap-selftest-quiet", (not r["np_changed"]) and (not r["py_changed"]) and (not r["torch_changed"]) and r["trapped_outside"] == 0,
+                "idle operation leaves the states alone"))
+    # 1b. neutralised mode: unseeded constructions are served identically in two observations, differently within one
+    def probe2(S):
+        return [float(np.random.default_rng().random()), float(np.random.default_rng().random()), float(np.random.RandomState().random_sample()),
+                float(np.random.normal())]
+    a, b, c = observe(probe2, 77, True), observe(probe2, 77, True), observe(probe2, 77)
+    out.append(("neutralised-leak-selftest", a["out"] == b["out"] and a["out"][0] != a["out"][1] and c["out"][:3] != a["out"][:3] and c["out"][3] == a["out"][3],
+                "same=%s" % (a["out"] == b["out"])))
     # 2. the recording generator does not change the stream
     a = recording(ORIG_DEFAULT_RNG(99), "t")
     b = ORIG_DEFAULT_RNG(99)
@@ -1152,12 +1401,18 @@ def _screen_spec(rng, plates="mixed", observed="some", big=False):
 
 
 HASH_KINDS = {"pairwise": 3, "sparse_cover": 15, "plate_permutation": 15, "sample_segregating": 15, "smoother": 24, "random_holdout": 18,
-              "balanced_holdout": 24, "policy_filter": 15, "select_next_plate": 9, "cli_prepare": 6, "dbal_scorer": 12, "cli_select_next_plate": 9}
+              "balanced_holdout": 24, "policy_filter": 15, "select_next_plate": 9, "cli_prepare": 6, "dbal_scorer": 12, "cli_select_next_plate": 9,
+              "random_scorer": 18, "dbal_vectorized": 21, "score_chunk": 12, "sample": 9, "cli_calculate_scores": 12, "cli_train_model": 6,
+              "cli_evaluate_model": 9, "cli_analyze_model_evaluation": 9}
+# kinds with a recorded known leak (KNOWN_FINDINGS.json): they also get the observation LEAK_ASPECT, and their fresh-interpreter runs
+# are made with the leak neutralised (otherwise the unseeded generators alone make the two interpreters differ)
+LEAK_KINDS = ("sample", "cli_train_model", "cli_analyze_model_evaluation")
 
 
-# operations that are methods of a constructible object: also asked twice on ONE object (aspect repeatable, key same_object)
+# operations that are methods of a constructible object: also asked twice on ONE object (aspect repeatable, key same_object);
+# sample: sampling.sample twice on ONE model object (it calls reset_model() first), judged under the neutralised leaks
 SAME_OBJECT_KINDS = ("sparse_cover", "pairwise", "plate_permutation", "sample_segregating", "smoother", "random_scorer", "dbal_scorer",
-                     "policy_filter", "select_next_plate")
+                     "policy_filter", "select_next_plate", "sample")
 
 
 def gen(rng, tier):
@@ -1181,14 +1436,16 @@ def _gen(rng, tier):
             yield dict(core, aspect=a)
         # one core in HASH_KINDS[kind] of the deterministic (non-Gibbs) kinds is also run in two fresh interpreters
         k = core["kind"]
+        if k in LEAK_KINDS:
+            yield dict(core, aspect=LEAK_ASPECT)
         if k in SAME_OBJECT_KINDS and not core.get("norng"):
-            yield dict(core, same_object=True, aspect="repeatable")
+            yield dict(core, same_object=True, aspect=LEAK_ASPECT if k in LEAK_KINDS else "repeatable")
         if k in HASH_KINDS and not core.get("norng"):
             count[k] = count.get(k, 0) + 1
             if count[k] % HASH_KINDS[k] == 1 or (k == "cli_prepare" and "PairwisePlateGenerator" in core["extra"]):
                 yield dict(core, aspect="hash-seed")
 
-    for _ in range(reps):
+    for rep in range(reps):
         for i in range(5):
             yield from emit(dict(kind="sparse_cover", seed=rng.randrange(2 ** 31), screen=_screen_spec(rng, observed="all"), reveal_single=bool(i % 2)))
         for i in range(6):
@@ -1240,6 +1497,13 @@ def _gen(rng, tier):
             yield from emit(dict(kind="sample", model=model, seed=rng.randrange(2 ** 31), screen=_screen_spec(rng, observed=rng.choice(["all", "some"])),
                                  dim=rng.randint(1, 3), n_thetas=rng.randint(1, 3), n_chains=nch, chain_index=rng.randrange(nch),
                                  n_burnin=rng.randint(0, 2), thin=rng.randint(1, 2)))
+        # the variational grid model (pyro / torch): smallest settings; no control rows (the model refuses dose 0 with an IndexError,
+        # kept as one case in the thorough tier: refusing alike is repeatable too); n_thetas >= 2 (its sample() squeezes a length-1 axis away)
+        for i in range(1 if tier == "quick" else 3):
+            sp = _screen_spec(rng, observed=rng.choice(["all", "some"]))
+            sp["ctrl_frac"] = 0.2 if (tier != "quick" and i == 2) else 0.0
+            yield from emit(dict(kind="sample", model="ComboGridFactorModel", seed=rng.randrange(2 ** 31), screen=sp, dim=rng.randint(2, 3),
+                                 n_grid=rng.randint(4, 6), steps=rng.randint(1, 3), n_thetas=rng.randint(2, 3)))
         preps = [[], ["--plate-generator", "PlatePermutationPlateGenerator"],
                  ["--plate-generator", "PlatePermutationPlateGenerator", "--initial-plate-generator", "SparseCoverPlateGenerator",
                   "--initial-plate-generator-param", "reveal_single_treatment_experiments=False"],
@@ -1267,3 +1531,13 @@ def _gen(rng, tier):
             yield from emit(dict(kind="cli_select_next_plate", seed=_cli_seed(rng), data_seed=rng.randrange(10 ** 6),
                                  screen=_screen_spec(rng, plates="per-sample", observed="some"), k=rng.choice([0, 1, 2]),
                                  batch=sorted(rng.sample(range(5), rng.randint(0, 2)))))
+        for i in range(1 if tier == "quick" else 3):
+            yield from emit(dict(kind="cli_evaluate_model", seed=_cli_seed(rng), data_seed=rng.randrange(10 ** 6), screen=_screen_spec(rng, observed="all"),
+                                 n_thetas=rng.randint(1, 3), n_chains=rng.randint(1, 2)))
+        # every second repetition in the quick tier (four executions of about two seconds each: five PDFs, regplot's 1000 bootstrap rounds)
+        if tier != "quick" or rep % 2 == 0:
+            sp = _screen_spec(rng, observed="all")
+            sp["n_samples"] = min(sp["n_samples"], 2 if tier == "quick" else 4)
+            sp["n_rows"] = max(sp["n_rows"], 8)
+            yield from emit(dict(kind="cli_analyze_model_evaluation", seed=_cli_seed(rng), data_seed=rng.randrange(10 ** 6), screen=sp,
+                                 n_thetas=rng.randint(2, 3), n_chains=rng.randint(1, 2)))
